@@ -39,7 +39,7 @@ TIERS = {
         paths=[dict(MaxDepth=5, PointIdx={5}, Octants={1, 4, 6, 7}, VecIdx={1}, Forms={"plain"}),
                dict(MaxDepth=4, PointIdx={1, 2, 3, 4, 6, 7, 8, 9, 10, 11, 12}, Octants={2, 7}, VecIdx={5}, Forms={"plain"}),
                dict(MaxDepth=3, PointIdx={1, 2, 3}, Octants={1, 2, 3, 4, 5, 6, 7, 8}, VecIdx={2, 3, 4}, Forms={"plain"}),
-               dict(MaxDepth=4, PointIdx={1, 2, 5}, Octants={1, 4, 6, 7}, VecIdx={1, 2, 5}, Forms={"cross", "dot"})],
+               dict(MaxDepth=4, PointIdx={1, 5}, Octants={1, 4, 6, 7}, VecIdx={1, 5}, Forms={"cross", "dot"})],
         matrix_points=geom.octant_points(geom.SMALL_POINTS)),
 }
 INVARIANTS = ["TypeOK", "GeometryInvariant", "OffAxis", "AllPairsOffered"]
